@@ -37,6 +37,7 @@ import (
 	"regexp"
 	"strconv"
 	"strings"
+	"unicode/utf8"
 
 	"golang.org/x/net/html"
 
@@ -1342,7 +1343,8 @@ func isDataAttribute(val string) bool {
 	if dataAttributeInvalidChars.MatchString(rest[1]) {
 		return false
 	}
-	return true
+	// (bytes that are not UTF-8 would pass as U+FFFD, a name character)
+	return utf8.ValidString(rest[1])
 }
 
 func removeUnicode(value string) (decoded string, syntax bool) {
